@@ -10,6 +10,10 @@
             [| json <py>] | ser <0/1>
          detail 0: the data_type of a structure tag is printed as O S <name> (the definition itself is
          in dts) and tags_json is not printed; detail 1: everything
+     scriptseq <rev> <fuel> <detail> { || none|star|<program> { | <reply frame> }* }+
+         several get_tag_list calls on ONE driver (the state left by a call is the state the next starts
+         from), each with the reply frames it received; answer as for script, for the LAST call, with the
+         requests of all calls; fail / oof as soon as a call fails
      mirror <rev> <cap> <fuel> none|star
          the model client against the reference target's handler (Proofs/UploadDefs.upload_target)
          -> ok <0 done | 1 fail | 2 oof> <obs_of_view defined 0/1> <observations equal 0/1> <#tags> <#types>
@@ -167,6 +171,52 @@ Definition cmd_script (args : list tok) : list tok :=
       | _, _ => err "badscript"
       end
   | _ => err "badscript"
+  end.
+
+(* ---------------------------------------------------------------- several calls on one driver *)
+Fixpoint split_dbar (ts : list tok) (cur : list tok) (acc : list (list tok)) : list (list tok) :=
+  match ts with
+  | [] => rev_append acc [rev_append cur []]
+  | t :: r => if is_sym "||" t then split_dbar r [] (rev_append cur [] :: acc) else split_dbar r (t :: cur) acc
+  end.
+
+Definition result_toks (detail : Z) (rqs : list tok) (r : uresult) : list tok :=
+  let u := res_state r in
+  let js := tags_json (res_tags r) in
+  sym "done" :: rqs
+  ++ bar :: sym "tags" :: py_toks (if detail =? 0 then light_tags_py (res_tags r) else tags_py (res_tags r))
+  ++ bar :: sym "dts" :: py_toks (data_types_py u)
+  ++ bar :: sym "progs" :: py_toks (programs_py u)
+  ++ bar :: sym "tasks" :: py_toks (tasks_py u)
+  ++ (if detail =? 0 then [] else bar :: sym "json" :: py_toks js)
+  ++ [bar; sym "ser"; bool_tok (serialisable js)].
+
+Fixpoint run_calls (rev : Z) (fuel : nat) (detail : Z) (u : ustate) (log : list ureq) (calls : list (list tok)) (last : option uresult)
+  : list tok :=
+  let rqs (l : list ureq) := flat_map (fun rq => bar :: rq_toks rq) (rev_append l []) in
+  match calls with
+  | [] => match last with Some r => result_toks detail (rqs log) r | None => err "nocalls" end
+  | c :: rest =>
+      match ExTarget.split_bar c [] [] with
+      | [a] :: gs =>
+          match parse_arg a, frames_of gs with
+          | Some arg, Some frames =>
+              let '(s', o) := get_tag_list script script_call rev fuel u (mkScript frames log) arg in
+              match o with
+              | Done r => run_calls rev fuel detail (res_state r) (sc_log s') rest (Some r)
+              | Failed _ => sym "fail" :: rqs (sc_log s')
+              | OutOfFuel => sym "oof" :: rqs (sc_log s')
+              end
+          | _, _ => err "badcall"
+          end
+      | _ => err "badcall"
+      end
+  end.
+
+Definition cmd_scriptseq (args : list tok) : list tok :=
+  match split_dbar args [] [] with
+  | [TInt rev; TInt fuel; TInt detail] :: calls => run_calls rev (Z.to_nat fuel) detail init_ustate [] calls None
+  | _ => err "badscriptseq"
   end.
 
 (* ---------------------------------------------------------------- model client o target *)
@@ -327,6 +377,7 @@ Definition handle (st : lstate) (ts : list tok) : lstate * list tok :=
       else if is_sym "wf" cmd then (st, [ok; bool_tok (wf_project (ls_proj st))])
       else if is_sym "mirror" cmd then (st, cmd_mirror st args)
       else if is_sym "script" cmd then (st, cmd_script args)
+      else if is_sym "scriptseq" cmd then (st, cmd_scriptseq args)
       else if is_sym "classify" cmd then (st, cmd_classify args)
       else if is_sym "hidden" cmd then (st, cmd_hidden args)
       else if is_sym "createtag" cmd then (st, cmd_createtag args)
